@@ -46,7 +46,7 @@ func (f *Multiply) Call(s *slip.Scope, args slip.List, depth int) (product slip.
 		arg, product = slip.NormalizeNumber(arg, product)
 		switch ta := arg.(type) {
 		case slip.Fixnum:
-			product = ta * product.(slip.Fixnum)
+			product = mulFixnums(ta, product.(slip.Fixnum))
 		case slip.SingleFloat:
 			product = ta * product.(slip.SingleFloat)
 		case slip.DoubleFloat:
